@@ -1037,7 +1037,7 @@ def run(ctx):
                 cases.append(case)
                 ctx.count("stream:deep-random")
         # random DAGs x every cached subset x cache kinds x histories
-        n_dags = ctx.n(150, 5000)
+        n_dags = ctx.n(150, 4200)
         for d in range(n_dags):
             desc = gen_desc(rng)
             names = [f["name"] for f in desc["funcs"]]
